@@ -278,7 +278,9 @@ def sx(e):
             return sx(e['obj'])
         return ('.' + str(e.get('m')), sx(e['obj'])) + tuple(sx(a) for a in e['args'])
     if k == 'Call':
-        return (short_fn(e.get('fn')),) + tuple(sx(a) for a in e['args'])
+        fn = short_fn(e.get('fn'))
+        fn = strip_trailing_targs(fn)
+        return (fn,) + tuple(sx(a) for a in e['args'])
     if k == 'Member':
         b = sx(e['base'])
         return '%s.%s' % (b, e['name']) if isinstance(b, str) else ('.member:' + e['name'], b)
@@ -295,3 +297,18 @@ def sx(e):
     if k == 'Index':
         return ('[]', sx(e['base']), sx(e['idx']))
     return ('?' + str(e.get('cls', k)),) + tuple(sx(a) for a in (e.get('args') or []))
+
+
+def strip_trailing_targs(fn):
+    """'std::cbegin<std::list<X>>' -> 'std::cbegin' ; names not ending in a template-argument list are unchanged."""
+    if not fn.endswith('>') or 'operator' in fn:
+        return fn
+    depth = 0
+    for i in range(len(fn) - 1, -1, -1):
+        if fn[i] == '>':
+            depth += 1
+        elif fn[i] == '<':
+            depth -= 1
+            if depth == 0:
+                return fn[:i]
+    return fn
